@@ -20,7 +20,7 @@ import (
 func init() {
 	register("Creds", genCreds)
 	trackedFuncs["C16"] = []tracked{
-		{"signer", "Signer", "hash"}, {"signer", "Signer", "Sign"}, {"signer", "Signer", "SignHex"},
+		{"signer", "", "New"}, {"signer", "Signer", "hash"}, {"signer", "Signer", "Sign"}, {"signer", "Signer", "SignHex"},
 		{"signer", "Signer", "Check"}, {"signer", "Signer", "CheckHex"}, {"signer", "Signer", "CheckJSON"},
 		{"signer", "Signer", "CheckChallenge"},
 		{"signer", "Sessions", "New"}, {"signer", "Sessions", "Check"}, {"signer", "", "NewSessions"},
@@ -342,6 +342,44 @@ func genCreds(repo string, fs facts) (string, error) {
 	out["macSplitConsistent"] = sameSize
 	out["macCompareFull"] = macFull
 	out["macIsHmacSha256"] = macIsHmacSha256
+
+	// Verification must be a function of (key, token) alone: the objects shared
+	// between concurrent requests (Signer, and with it Sessions, TimeSigner,
+	// Gate; HS256) must not carry a hash/HMAC state that calls mutate.
+	holdsState := func(p *pkg, typ string) (bool, []string) {
+		var fields []string
+		bad := false
+		for _, f := range p.files {
+			ast.Inspect(f, func(x ast.Node) bool {
+				ts, ok := x.(*ast.TypeSpec)
+				if !ok || ts.Name.Name != typ {
+					return true
+				}
+				st, ok := ts.Type.(*ast.StructType)
+				if !ok {
+					return true
+				}
+				for _, fl := range st.Fields.List {
+					t := p.src(fl.Type)
+					for _, n := range fl.Names {
+						fields = append(fields, n.Name+" "+t)
+					}
+					if strings.Contains(t, "hash.") || strings.Contains(t, "hmac.") || strings.Contains(t, "sha256.") ||
+						strings.Contains(t, "bytes.Buffer") {
+						bad = true
+					}
+				}
+				return true
+			})
+		}
+		sort.Strings(fields)
+		return bad, fields
+	}
+	b1, f1 := holdsState(sg, "Signer")
+	b2, f2 := holdsState(jw, "HS256")
+	out["signerFields"] = f1
+	out["hs256Fields"] = f2
+	out["verifierHoldsHashState"] = b1 || b2 || (len(f1) > 0 && !macIsHmacSha256 && strings.Contains(sg.src(hashFn.Body), "Reset()"))
 
 	chx, err := need(sg, "Signer", "CheckHex")
 	if err != nil {
@@ -708,6 +746,7 @@ func genCreds(repo string, fs facts) (string, error) {
 	bl("macSplitConsistent", "signer.Signer.Check: data and MAC are cut at n - sha256.Size")
 	bl("macCompareFull", "signer.Signer.Check: hmac.Equal on the two whole slices")
 	bl("macIsHmacSha256", "signer.Signer.hash: hmac.New(sha256.New, s.key)")
+	bl("verifierHoldsHashState", "signer.Signer or jwt.HS256 keeps a hash/HMAC state in a field (shared by concurrent verifications)")
 	bl("hexCanonical", "signer.Signer.CheckHex compares the re-encoded bytes with the presented text")
 	bl("ttlCapped", "signer.Sessions.New: `if ttl <= 0 || ttl > s.ttl { ttl = s.ttl }`")
 	bl("sessionRejectAtExpiry", "signer.Sessions.Check: refuses when `!timeNow.Before(expire)`")
